@@ -131,22 +131,26 @@ def signal(F, p, t):
 
 def mk_network(F):
     net = F.new(LaneletNetwork)
-    stop = F.new(StopLine, pos(F, "stop_s"), pos(F, "stop_e"), LineMarking.SOLID, {101}, {201})
+    # the stop line also refers to a light (202) that its own lanelet does not list
+    stop = F.new(StopLine, pos(F, "stop_s"), pos(F, "stop_e"), LineMarking.SOLID, {101}, {201, 202})
     left, right = poly2(F, "l1l"), poly2(F, "l1r")
     # the format stores the two boundaries; the centre line is their mean
     center = 0.5 * (left + right) if F.native else F.interp.binop(__import__("ast").Mult, 0.5, F.interp.binop(__import__("ast").Add, left, right))
     l1 = F.new(Lanelet, left, center, right, 1, [], [2], 3, True, None, None, LineMarking.DASHED, LineMarking.SOLID, stop,
                {LaneletType.URBAN, LaneletType.MAIN_CARRIAGE_WAY}, {RoadUser.CAR, RoadUser.BUS}, {RoadUser.BICYCLE}, {101}, {201})
     cv = lambda y: (np.array([[10.0, y + 1.0], [20.0, y + 1.25]]), np.array([[10.0, y + 0.5], [20.0, y + 0.75]]), np.array([[10.0, y], [20.0, y + 0.25]]))
-    l2 = F.new(Lanelet, *cv(0.0), 2, [1], [], None, None, None, None, lanelet_type={LaneletType.URBAN})  # the schema requires a lanelet type
-    l3 = F.new(Lanelet, *cv(3.0), 3, [], [], None, None, 1, True, lanelet_type={LaneletType.BUS_LANE})
+    l2 = F.new(Lanelet, *cv(0.0), 2, [1], [], None, None, None, None, lanelet_type={LaneletType.URBAN}, traffic_lights={202})  # the schema requires a lanelet type
+    l3 = F.new(Lanelet, *cv(3.0), 3, [2, 1], [], None, None, 1, True, lanelet_type={LaneletType.BUS_LANE})  # predecessor list deliberately not ascending
     for la in (l1, l2, l3):
         F.method(net, "add_lanelet", la)
     sign = F.new(TrafficSign, 101, [TrafficSignElement(TrafficSignIDGermany.MAX_SPEED, ["13.9"]), TrafficSignElement(TrafficSignIDGermany.PRIORITY, [])], {1}, pos(F, "sign_p"), True)
     cyc = F.new(TrafficLightCycle, [F.new(TrafficLightCycleElement, TrafficLightState.RED, 15), F.new(TrafficLightCycleElement, TrafficLightState.GREEN, 10)], 3, True)
     light = F.new(TrafficLight, 201, pos(F, "light_p"), cyc, direction=TrafficLightDirection.LEFT_STRAIGHT, active=True)
+    cyc2 = F.new(TrafficLightCycle, [F.new(TrafficLightCycleElement, TrafficLightState.GREEN, 7), F.new(TrafficLightCycleElement, TrafficLightState.YELLOW, 2)], 0, True)
+    light2 = F.new(TrafficLight, 202, pos(F, "light2_p"), cyc2, direction=TrafficLightDirection.RIGHT, active=True)
     F.method(net, "add_traffic_sign", sign, set())
     F.method(net, "add_traffic_light", light, set())
+    F.method(net, "add_traffic_light", light2, set())
     # one incoming per successor kind alone (straight only / left only / right only): a guard copied from a neighbouring block shows
     inc = F.new(IntersectionIncomingElement, 302, {1}, set(), {2}, set(), None)
     inc_l = F.new(IntersectionIncomingElement, 303, {2}, set(), set(), {3}, 302)
@@ -209,18 +213,33 @@ def mk_scenario(F, content=("network", "static", "dynamic", "setbased", "phantom
     objs = []
     if "network" in content:
         objs.append(mk_network(F))
+    if "mini_network" in content:  # two lanelets with concrete geometry (goal positions given by lanelets refer to them)
+        net = F.new(LaneletNetwork)
+        cv = lambda y: (np.array([[10.0, y + 1.0], [20.0, y + 1.25]]), np.array([[10.0, y + 0.5], [20.0, y + 0.75]]), np.array([[10.0, y], [20.0, y + 0.25]]))
+        F.method(net, "add_lanelet", F.new(Lanelet, *cv(0.0), 2, [], [3], lanelet_type={LaneletType.URBAN}))
+        F.method(net, "add_lanelet", F.new(Lanelet, *cv(3.0), 3, [2], [], lanelet_type={LaneletType.BUS_LANE}))
+        objs.append(net)
     obstacles = mk_obstacles(F, content)
     F.method(sc, "add_objects", objs + obstacles)
     return sc
 
 
-def mk_planning_problems(F):
+def mk_planning_problems(F, net=None):
+    """net given: a second planning problem whose goal has a state WITHOUT position first and then a state whose position is given by
+    lanelets (the reader rebuilds it as the group of their polygons) -- the goal-lanelet map is keyed by the index of the goal state"""
     g1 = F.new(st.CustomState, time_step=interval(F, "g1_t", True), position=F.new(Rectangle, positive(F, "g1_l"), positive(F, "g1_w"), pos(F, "g1_c"), ang(F, "g1_o")),
                orientation=angle_interval(F, "g1_or"), velocity=interval(F, "g1_v"))
     g2 = F.new(st.CustomState, time_step=interval(F, "g2_t", True), position=F.new(Circle, positive(F, "g2_r"), pos(F, "g2_c")))
     goal = F.new(GoalRegion, [g1, g2])
     pp = F.new(PlanningProblem, 500, initial_state(F, "pp_i_", 0), goal)
-    return F.new(PlanningProblemSet, [pp])
+    pps = [pp]
+    if net is not None:
+        lanes = [F.method(net, "find_lanelet_by_id", i) for i in (2, 3)]
+        g_time = F.new(st.CustomState, time_step=interval(F, "g3_t", True), velocity=interval(F, "g3_v"))
+        g_lane = F.new(st.CustomState, time_step=interval(F, "g4_t", True), position=F.new(ShapeGroup, [F.attr(la, "polygon") for la in lanes]))
+        goal2 = F.new(GoalRegion, [g_time, g_lane], {1: [2, 3]})
+        pps.append(F.new(PlanningProblem, 501, initial_state(F, "pp2_i_", 0), goal2))
+    return F.new(PlanningProblemSet, pps)
 
 
 def state_of(F, cls, t, p):
@@ -278,7 +297,7 @@ class RoundTrip(Contract):
 
 CONTENTS = {"lanelet network": ("network",), "static obstacle": ("static",), "dynamic obstacle with trajectory": ("dynamic",),
             "dynamic obstacle with set-based prediction": ("setbased",), "phantom + environment obstacle": ("phantom", "environment"),
-            "planning problems": ()}
+            "planning problems": (), "goal given by lanelets": ("mini_network", "goal_lanelets")}
 
 for _d, _cname in [(d, c) for d in PRECISIONS for c in CONTENTS]:
 
@@ -291,7 +310,10 @@ for _d, _cname in [(d, c) for d in PRECISIONS for c in CONTENTS]:
 
         def build(self, F):
             sc = mk_scenario(F, self.content)
-            pps = mk_planning_problems(F) if not self.content else F.new(PlanningProblemSet)
+            if "goal_lanelets" in self.content:
+                pps = mk_planning_problems(F, F.attr(sc, "lanelet_network"))
+            else:
+                pps = mk_planning_problems(F) if not self.content else F.new(PlanningProblemSet)
             return {"sc": sc, "pps": pps, "args": []}
 
         def invoke(self, F, inp):
